@@ -66,6 +66,7 @@ theorem inv_work_drh (c : Cfg) (ar aq : Nat) (s : S) (h : Inv c ar aq s) (hrun :
     | false => rfl
     | true => have := h.k5 hh; rw [hcl] at this; cases this
   have hrst : s.respStarted = false := h.k16 hcl (by simp [hp, upPhase])
+  have hhdr : (snd s.trace).hdr = false := by rw [h.k2]; exact hrst
   have hfwd : fwdPhase s.phase = true := by simp [hp, fwdPhase]
   have h18 := h.k18 hcl hfwd
   have hmain : s.up.isSome = true ∧ s.rs.isSome = true := by
@@ -130,7 +131,7 @@ theorem inv_work_drh (c : Cfg) (ar aq : Nat) (s : S) (h : Inv c ar aq s) (hrun :
           unfold drhFail
           obtain ⟨k1, k2, k4, k9, k10, k11, k12, k13, k14, k20, k21, k22, k31⟩ := hb
           refine ⟨?_, ?_, ?_, k9, ?_, ?_, k12, ?_, ?_, ?_, hoff, ?_, k31⟩
-          · simpa [K1, snd_append, sndStep] using k1
+          · simpa [K1, snd_append, sndStep, hhdr] using k1
           · simpa [K2, snd_append, sndStep] using k2
           · simpa [K4, nLog_append, isLog] using k4
           · simpa [K10, heldRequests, hst, liveCount, liveCounted] using k10
@@ -177,7 +178,7 @@ theorem inv_work_drh (c : Cfg) (ar aq : Nat) (s : S) (h : Inv c ar aq s) (hrun :
           unfold drhOk
           obtain ⟨k1, k2, k4, k9, k10, k11, k12, k13, k14, k20, k21, k22, k31⟩ := hb
           refine ⟨?_, ?_, ?_, k9, ?_, ?_, k12, ?_, ?_, ?_, hoff, ?_, ?_⟩
-          · simpa [K1, snd_append, snd_append2, sndStep] using k1
+          · simpa [K1, snd_append, snd_append2, sndStep, hhdr] using k1
           · simpa [K2, snd_append, snd_append2, sndStep] using k2
           · simpa [K4, nLog_append, nLog_append2, isLog] using k4
           · simp only [K10, heldRequests, hst, liveCount_nil, increase_eq] at k10 ⊢
